@@ -243,6 +243,7 @@ def _work(item):
             fn = {"H": rt_undirected, "D": rt_directed, "S": rt_complex}[spec["cls"]]
             res = fn(H, spec)
             F.detour(H)
+            F.morph(H)
             res = list(res) + [(m, "[same object after remove+re-add of its first node and edge] " + msg) for m, msg in fn(H, spec)]
         except RecursionError:
             raise
